@@ -246,7 +246,7 @@ CHECK_DEADLOCK FALSE
 `, seed%50, sizes, maxWrites, maxTotal)
 }
 
-var allBad = []string{"empty", "empty_crlf", "crcr", "long", "long65", "noncanon", "nopad", "midpad", "trail_sp", "lead_sp", "cr_in", "cr_lead", "cr_trail2", "kv", "garbage", "lower_marker", "sp_marker", "sp_end", "wrong_type", "pgp_crc", "partial", "ws1", "BEGIN", "short3"}
+var allBad = []string{"full_b", "short47", "short46", "empty", "empty_crlf", "crcr", "long", "long65", "noncanon", "nopad", "midpad", "trail_sp", "lead_sp", "cr_in", "cr_lead", "cr_trail2", "kv", "garbage", "lower_marker", "sp_marker", "sp_end", "wrong_type", "pgp_crc", "partial", "ws1", "BEGIN", "short3"}
 
 func runRead(run *vk.Run, what, cfg string) {
 	res := run.TLC(what, vk.TLCOpts{Module: "ArmorGen", Config: cfg, Workers: 16})
